@@ -101,7 +101,7 @@ def gen_cases(tier: str, seed: int):
             yield {"kind": "variable_paths", "seed": r.randrange(1 << 30), "source": r.choice(["literal", "column"])}
             continue
         if x < 0.15:
-            yield {"kind": r.choice(["flatten2", "nested_cast"]), "seed": r.randrange(1 << 30), "source": r.choice(["literal", "column"])}
+            yield {"kind": r.choice(["flatten2", "nested_cast", "case_variant_paths"]), "seed": r.randrange(1 << 30), "source": r.choice(["literal", "column"])}
             continue
         if x < 0.19:
             # object keys that look like numbers are keys all the same: v['2023'] is a key look-up, v[2023] an array position
@@ -187,6 +187,8 @@ def run_case(case: dict, env: core.Env) -> None:
         return _variable_paths(case, env, cur)
     if kind == "flatten2":
         return _flatten2(case, env, cur)
+    if kind == "case_variant_paths":
+        return _case_variant_paths(case, env, cur)
     if kind == "nested_cast":
         return _nested_cast(case, env, cur)
     doc = json.loads(case["doc"])
@@ -459,6 +461,80 @@ def _variable_paths(case: dict, env: core.Env, cur: Any) -> None:
         elif a["rows"] != b["rows"]:
             env.witness(f"C11/variable-held-path/differs-from-written-out/{name}", f"{setv}; {a['sql']} -> {a['rows']} but {b['sql']} -> {b['rows']}")
     env.nontrivial(("variable_paths", json.dumps(doc), case["source"], i))
+
+
+def _case_variant_paths(case: dict, env: core.Env, cur: Any) -> None:
+    """Member names are case-sensitive: the same statement with another spelling of a key is another question, also when it
+    is asked on the same connection straight after the first one."""
+    r = random.Random(case["seed"])
+    base = r.choice(["userId", "Ab", "kEy", "nAme"])
+    spellings = [base, base.lower(), base.upper()]
+    doc: dict[str, Any] = {}
+    for j, k in enumerate(spellings):
+        if r.random() < 0.8:
+            doc[k] = r.choice([f"{_WORDS[j]}-{j}", j + 1, [j] * (j + 1), {"in": f"{k}-inner"}])
+    inner = r.random() < 0.4
+    if inner:
+        doc = {"wrap": doc}
+    rid, lit_src = _store(cur, doc)
+    src = lit_src if case["source"] == "literal" else "V"
+    frm = "" if case["source"] == "literal" else f" FROM DOCS WHERE ID = {rid}"
+    pre = ["wrap"] if inner else []
+    form = r.choice(["colon", "colon-cast", "get_path", "get_path-cast", "where", "array_size"])
+    order = spellings[:]
+    r.shuffle(order)
+    order = order + [order[0]]
+    env.cover("op_x_kind", f"case_variant_paths/{form}/{case['source']}")
+    for k in order:
+        found, val = nav(doc, pre + [k])
+        dotted = ".".join(pre + [k])
+        colon = src + "".join(f":{p_}" for p_ in pre + [k])
+        if form == "colon":
+            sql, want = f"SELECT {colon} AS X{frm}", (val if found else None)
+        elif form == "colon-cast":
+            sql, want = f"SELECT {colon}::VARCHAR AS X{frm}", (_text_of(val) if found else None)
+        elif form == "get_path":
+            sql, want = f"SELECT GET_PATH({src}, '{dotted}') AS X{frm}", (val if found else None)
+        elif form == "get_path-cast":
+            sql, want = f"SELECT GET_PATH({src}, '{dotted}')::VARCHAR AS X{frm}", (_text_of(val) if found else None)
+        elif form == "array_size":
+            sql, want = f"SELECT ARRAY_SIZE({colon}) AS X{frm}", (len(val) if found and isinstance(val, list) else None)
+        else:
+            if case["source"] == "literal":
+                sql, want = f"SELECT 1 AS X WHERE {colon} IS NOT NULL", (1 if found else "<<no row>>")
+            else:
+                sql, want = f"SELECT 1 AS X{frm} AND {colon} IS NOT NULL", (1 if found else "<<no row>>")
+        o = core.run_stmt(cur, sql)
+        env.count("cmp_extract")
+        if not o["ok"]:
+            if form == "array_size" and found and isinstance(val, list) and not val:
+                continue
+            env.witness(f"C11/case-variant-keys/rejected/{form}", f"{sql}: {o['exc']['msg'][:200]}")
+            return
+        got = o["rows"][0][0] if o["rows"] else "<<no row>>"
+
+        def matches(k_: str) -> bool:
+            f_, v_ = nav(doc, pre + [k_])
+            if form in ("colon", "get_path"):
+                return (got is None) if not f_ or v_ is None else (isinstance(got, str) and _json_eq(got, v_))
+            if form in ("colon-cast", "get_path-cast"):
+                if not f_ or v_ is None:
+                    return got is None
+                if isinstance(v_, (list, dict)):
+                    try:
+                        return isinstance(got, str) and json.loads(got) == v_
+                    except ValueError:
+                        return False
+                return got == _text_of(v_)
+            if form == "array_size":
+                return got == (len(v_) if f_ and isinstance(v_, list) else None)
+            return got == (1 if f_ and v_ is not None else "<<no row>>")
+
+        if not matches(k):
+            why = "answers-for-another-spelling-of-the-key" if any(matches(k2) for k2 in spellings if k2 != k) else "wrong-value"
+            env.witness(f"C11/case-variant-keys/{why}/{form}", f"{sql} -> {got!r} expected {want!r}; document {json.dumps(doc)}; asked in the order {order}")
+            return
+    env.nontrivial(("case_variant_paths", json.dumps(doc), form, case["source"], tuple(order)))
 
 
 def _pandas_docs(case: dict, env: core.Env, cur: Any) -> None:
